@@ -30,7 +30,7 @@ import (
 type Knobs struct {
 	NumValidators   int   // genesis validators
 	NumWitnesses    int   // how many of the genesis validators are ETH witnesses
-	NumUsers        int   // funded ed25519 user accounts
+	NumUsers        int   // funded user accounts (ed25519; every third one secp256k1)
 	NumEthUsers     int   // funded ETHSECP accounts (OLVM)
 	NumCandidates   int   // extra validator candidates (keys known to the simulator, funded, not staked)
 	TopValidators   int64 // staking option
@@ -153,6 +153,11 @@ func BuildWorld(seed uint64, k Knobs) *World {
 		w.Candidates = append(w.Candidates, newValidatorKeys(seed, fmt.Sprintf("c%d", i)))
 	}
 	for i := 0; i < k.NumUsers; i++ {
+		if i%3 == 2 {
+			// every third user holds a secp256k1 key (the other key type the chain accepts for native transactions)
+			w.Users = append(w.Users, NewSecpAccount(seed, fmt.Sprintf("u%d", i)))
+			continue
+		}
 		w.Users = append(w.Users, NewEdAccount(seed, fmt.Sprintf("u%d", i)))
 	}
 	for i := 0; i < k.NumEthUsers; i++ {
